@@ -46,13 +46,50 @@ FN = {'damping': lambda s: 0.01 * (s + 1), 'lr': lambda s: 0.1,
       'inv_update_steps': lambda s: 2}
 
 
+class _Obj:
+    """A schedule given as an object with __call__ / as a bound method."""
+
+    def __init__(self, f: Any) -> None:
+        self.f = f
+
+    def __call__(self, s: int) -> Any:
+        return self.f(s)
+
+    def method(self, s: int) -> Any:
+        return self.f(s)
+
+
+def _two(f: Any, s: int) -> Any:
+    return f(s)
+
+
+# "a parameter that is already a function": every kind of callable the
+# preconditioner evaluates as a schedule (it dispatches on callable())
+FN_KINDS = {
+    'lambda': lambda f: f,
+    'partial': lambda f: __import__('functools').partial(_two, f),
+    'object': lambda f: _Obj(f),
+    'method': lambda f: _Obj(f).method,
+}
+
+
 def replay_one(d: dict[str, Any]) -> str | None:
+    if d['fn'] and d['scheduled']:
+        for kind in ('partial', 'object', 'method'):
+            msg = replay_kind(dict(d, h=[]), kind)
+            if msg:
+                return f'{msg} (schedule given as {kind})'
+    return replay_kind(d, 'lambda')
+
+
+def replay_kind(d: dict[str, Any], kind: str) -> str | None:
     from kfac.preconditioner import KFACPreconditioner
     from kfac.scheduler import LambdaParamScheduler
 
     model = torch.nn.Sequential(torch.nn.ReLU())   # nothing to register
     init = INIT_INT if d.get('mode') == 'int' else INIT
-    kw = {p: (FN[p] if p in d['fn'] else init[p]) for p in PARAMS}
+    kw = {p: (FN_KINDS[kind](FN[p]) if p in d['fn'] else init[p])
+          for p in PARAMS}
     with warnings.catch_warnings():
         warnings.simplefilter('ignore')
         pre = KFACPreconditioner(model, **kw)
